@@ -13,7 +13,7 @@ def rtl_extra(prop,tier,seed,repo,reg,known):
   return run_specs([sp for sp in rtl_specs() if prop in sp.prop_ids],tier,repo)
 
 
-FIX_COMMITS=['052e08e','9c79cb1','dce12fb','1afafb3']
+FIX_COMMITS=['052e08e','9c79cb1','dce12fb','1afafb3','61a0063']
 
 PROPERTIES={
  'C04': dict(level='proof',
@@ -50,4 +50,8 @@ PROPERTIES={
    require_cover=False,
    assumptions=["the removed component's update blocks are keys of the top's host/read/write/call maps (it was collected before) - precondition of the del statements",
                 "set/dict/defaultdict operations of CPython behave as the array model of pyvc/symcoll.py"]),
+ 'C06': dict(level='proof',
+   claim="Proof per type shape, for all field values (symbolic, unbounded): the generated to_bits / from_bits / __eq__ / __hash__ / clone / __deepcopy__ / @= / <<= / _flip / __init__ of every enumerated bitstruct shape (13 core shapes incl. nested structs, multi-dimensional lists, list-of-struct-in-struct, 1-element lists, 512+511-bit fields, a field named 's'; thorough adds 60 seeded random shapes) meet contracts generated from the statement's layout (first field most significant, list element 0 least significant): packed value and width, from_bits inverse of to_bits, equality iff packed values equal, hashing total, copies equal and sharing no leaf object with the source, @= / <<= copy leaf values into the destination's own objects (frame: nothing else changes). The text verified is the source the real generator emitted (captured by wrapping _create_fn from /verif).",
+   note="Shapes are enumerated (a template bug that only shows at nesting depth >= 3 or list rank >= 3 is outside the quick bound); values are not. The generator functions themselves (string templates) are not under contract. Assumes distinct arguments do not alias (x @= x excluded). concat is used through its contract, which is proved for arity <= 5 and assumed beyond.",
+   assumptions=["self and other are distinct objects without shared leaves","leaf widths are the declared ones (type invariant)"]),
 }
